@@ -204,11 +204,27 @@ class Wrapf(util.WrapperMixin):
             ast = var.ast
             ntypemap = ast.typemap
             if ast.is_indirect():
-                append_format(output, "type(C_PTR) :: {variable_name}", var.fmtdict)
+                decl = wformat("type(C_PTR) :: {variable_name}", var.fmtdict)
+                if ast.array:
+                    # 'int *tab[4]': an array of pointers keeps its shape
+                    # (column-major order).
+                    decl += "(" + ",".join(
+                        todict.print_node(dim)
+                        for dim in reversed(ast.array)) + ")"
+                output.append(decl)
                 self.set_f_module(fileinfo.module_use,
                                   "iso_c_binding", "C_PTR")
+            elif ntypemap.base == "string" and not ast.array:
+                # 'char c': a scalar character component.
+                append_format(output,
+                              "character(kind=C_CHAR) :: {variable_name}",
+                              var.fmtdict)
+                self.set_f_module(fileinfo.module_use,
+                                  "iso_c_binding", "C_CHAR")
             else:
-                output.append(ast.gen_arg_as_fortran())
+                # Members must have the interoperable type
+                # (bool is logical(C_BOOL), not default logical).
+                output.append(ast.gen_arg_as_fortran(bindc=True))
                 self.update_f_module(
                     fileinfo.module_use, {},
                     ntypemap.f_c_module or ntypemap.f_module
